@@ -155,6 +155,12 @@ pub async fn run_scripted(case: &Value, keep: bool) -> RunOut {
                     let _ = std::fs::remove_file(e.path());
                 }
             }
+            "break_snapshots_dir" => {
+                // the per-session snapshot directory cannot be written (its path is occupied by a regular file); the log can
+                let dir = data.join("snapshots");
+                let _ = std::fs::remove_dir_all(&dir);
+                let _ = std::fs::write(&dir, b"not a directory");
+            }
             "break_artifacts_dir" => {
                 let dir = ws.join(".rip/artifacts/blobs");
                 let _ = std::fs::remove_dir_all(&dir);
